@@ -772,10 +772,10 @@ Proof.
   - destruct ((backfilled data s <=? j) && (j <=? length (txs data s))); [|discriminate].
     inversion E; subst s'. clear E. destruct (S eq_refl) as [S1 S2].
     constructor; prep; rewrite ?Em in *; fin2.
-  - destruct (j =? length (txs data s)) eqn:Ej; [|discriminate]. apply Nat.eqb_eq in Ej.
+  - destruct ((backfilled data s <=? j) && (j <=? length (txs data s))); [|discriminate].
     inversion E; subst s'. clear E.
     constructor; prep; rewrite ?Em in *; fin2.
-  - destruct (j =? length (txs data s)) eqn:Ej; [|discriminate]. apply Nat.eqb_eq in Ej.
+  - destruct ((backfilled data s <=? j) && (j <=? length (txs data s))); [|discriminate].
     inversion E; subst s'. clear E.
     constructor; prep; rewrite ?Em in *; fin2.
   - destruct (j =? length (txs data s)) eqn:Ej; [|discriminate]. apply Nat.eqb_eq in Ej.
